@@ -301,13 +301,13 @@ func checkEntryPoints(set lp.Settings, v lp.Val) (*lp.Program, string) {
 	}
 	for _, m := range n.O {
 		switch m.Key {
-		case "event", "ctx", "embed", "func", "fmap", "fslice", "fptr":
+		case "ep:event", "ep:ctx", "ep:embed", "ep:func", "ep:fmap", "ep:fslice", "ep:fptr":
 			add(m.Key, m.Val)
-		case "dict", "obj":
+		case "ep:dict", "ep:obj":
 			if m.Val.Kind == jsonref.Obj && len(m.Val.O) == 1 {
 				add(m.Key, m.Val.O[0].Val)
 			}
-		case "arr", "arrm", "slice", "fsl":
+		case "ep:arr", "ep:arrm", "ep:slice", "ep:fsl":
 			if m.Val.Kind == jsonref.Arr {
 				for _, e := range m.Val.A {
 					add(m.Key, e)
